@@ -13,12 +13,24 @@ some callbacks raise.
 import json
 
 PROPS = ('C19',)
-RACE_PROBES = ('undecodable_member_data', 'relisting', 'parent_deleted_with_members', 'parent_recreated', 'name_recurred', 'callback_raised',
+RACE_PROBES = ('empty_path_recreated_in_one_step', 'undecodable_member_data', 'relisting', 'parent_deleted_with_members', 'parent_recreated', 'name_recurred', 'callback_raised',
                'member_vanished_during_read', 'notification_before_listing', 'burst')
 SHRINK_KEYS = ('ops',)
 
 
-def generate(rng, tier='quick', **kw):
+def generate(rng, tier='quick', family=None, **kw):
+  if family == 'recreate_empty' or (family is None and rng.random() < 0.06):
+    # the watched path, empty and with nothing pending, is deleted, re-created
+    # and populated in one step of the ZooKeeper server (no client round trip
+    # can fall into the gap): the client sees the deletion events only when
+    # everything is already back, and must still announce the new members
+    t = rng.choice([0.3, 0.5])
+    ops = [{'t': t, 'op': 'recreate', 'adds': rng.randint(1, 3)}]
+    for _ in range(rng.randint(0, 6)):
+      t += rng.choice([0.05, 0.1, 0.5])
+      ops.append({'t': round(t, 6), 'op': rng.choice(['add', 'del']), 'which': rng.randrange(8)})
+    return {'world': 'w_zk', 'ops': ops, 'pre_members': 0, 'parent_exists': True, 'family': 'recreate_empty',
+            'raise_every': rng.choice([0, 0, 3]), 'latency': rng.choice([[0.0002, 0.001], [0.0005, 0.004], [0.001, 0.02]])}
   n_ops = rng.randint(5, 80 if tier == 'quick' else 200)
   ops = []
   t = rng.choice([0.0, 0.0, 0.05])
@@ -195,6 +207,16 @@ def run(scn):
         srv.delete(PATH)
         rm_done[op['t']] = True
         REC.fault('parent_deleted')
+    elif k == 'recreate':
+      node = srv._find(PATH)
+      if node is not None and not node.children and not view:
+        srv.delete(PATH)
+        srv.create(PATH)
+        for _ in range(op['adds']):
+          add_member()
+        REC.probe('empty_path_recreated_in_one_step')
+        REC.fault('parent_deleted')
+        REC.fault('parent_created')
     elif k == 'mkparent':
       if srv._find(PATH) is None:
         srv.create(PATH)
@@ -222,6 +244,10 @@ def run(scn):
           fast = True
         t_rm = None
     cause = 'path_recreated_within_watch_round_trip' if fast else 'other'
+    if scn.get('family') == 'recreate_empty':
+      # not the known finding's history: the path was empty, nothing was
+      # pending and the re-creation left no gap a client request could fall into
+      cause = 'path_recreated_in_one_step_while_empty'
     if not fast and not (want - have):
       # every stale member came from the initial listing and the watch path
       # never announced it (it vanished before the notification worker read it)
